@@ -15,7 +15,7 @@ ROW_RE = re.compile(r"^0x([0-9a-f]{4,8}):")
 WROTE_RE = re.compile(r"^Wrote (-?\d+) (?:bytes|int16's|int32's) starting at address 0x([0-9a-f]+)$")
 REG_RE = re.compile(r"(PC|SP|SR|CG|r\d+): 0x([0-9a-f]{4})")
 STEP_RE = re.compile(r"^ ! 0x([0-9a-f]{4}): 0x([0-9a-f]{4})")
-DIS_RE = re.compile(r"^0x([0-9a-f]{4}): 0x([0-9a-f]{4})")
+DIS_RE = re.compile(r"^0x([0-9a-f]{4,8}): 0x([0-9a-f]{4})")
 
 
 def row_values(cmd, rest):
